@@ -1,3 +1,4 @@
+//go:debug randseednop=0
 package sim
 
 // Worker entry points. The driver (cmd/check) runs this test binary as worker processes:
